@@ -1240,29 +1240,57 @@ func c08Findings(t *testing.T, st *VStream, stats *VStats, log *logrus.Logger) {
 // c08RaceStream: many goroutines hit one freshly expired entry at the same instant; exactly one of
 // them may be told to refresh (the CAS on `refreshing`).  One round = one `ins` + one `clook` line.
 func c08RaceStream(t *testing.T, st *VStream, stats *VStats, log *logrus.Logger, rounds int) {
-	// Real time and real parallelism (no synctest bubble): the entries have TTL 0 and a 60 s stale
-	// window, so nothing here depends on how fast the wall clock runs.
-	w := &c08World{log: log, st: st, stats: stats}
-	w.cfg(c08Cfg{opt: true, stale: 60})
-	defer func() { _ = w.c.Close() }()
-	for i := 0; i < rounds; i++ {
-		name := fmt.Sprintf("r%d.test", i%50)
-		key := w.realKey(name, 1, c08Routes()[0])
-		w.ins(time.Now().UnixNano(), key, name, 1, 0, i%60000, 1, 0) // TTL 0: expired at once, inside the stale window
-		w.clook(time.Now().UnixNano(), key, name, 1, 8+i%9)
-		stats.Inc("race.rounds")
+	// (1) simultaneous first lookups of a freshly expired entry — in a bubble: instants are virtual,
+	// nothing depends on the wall clock
+	synctest.Test(t, func(t *testing.T) {
+		w := &c08World{log: log, st: st, stats: stats}
+		w.cfg(c08Cfg{opt: true, stale: 60})
+		defer func() { _ = w.c.Close() }()
+		now := time.Now().UnixNano()
+		for i := 0; i < rounds; i++ {
+			name := fmt.Sprintf("r%d.test", i%50)
+			key := w.realKey(name, 1, c08Routes()[0])
+			now += c08Sec
+			w.ins(now, key, name, 1, 0, i%60000, 1, 0) // TTL 0: expired at once, inside the stale window
+			w.clook(now, key, name, 1, 8+i%9)
+			stats.Inc("race.rounds")
+		}
+	})
+	// (2) Latch hammer, real parallelism, real time — but nothing in it depends on the wall clock:
+	// the entry expired 1000 s before it was stored (a backwards clock step smaller than that changes
+	// nothing), the stale window is unbounded (optimistic_cache_ttl 0 with a size limit), the loop is
+	// bounded by a time budget, everybody yields, and the result line does not contain instants.
+	// Several goroutines look the stale entry up in a loop while the latch is released again and again
+	// (what the end of a refresh does): however the lookups interleave, releases = refresh requests.
+	loopers := min(6, runtime.GOMAXPROCS(0)-1, runtime.NumCPU()-1)
+	if loopers < 2 {
+		stats.Inc("race.hammer_skipped_fewer_than_3_cpus")
+		st.Emit("hammer skipped=1", "hammer extra_refresh_requests=0")
+		return
 	}
-	// Latch hammer: several goroutines look one stale entry up in a tight loop while the latch is
-	// released again and again (what the end of a refresh does).  Every release may be followed by
-	// exactly one needRefresh=true, however the lookups interleave.
+	w := &c08World{log: log, st: st, stats: stats}
+	dnsCacheJanitorInterval = 24 * 365 * 50 * time.Hour
+	c, err := NewDnsController(nil, c08Option(c08Cfg{opt: true, stale: 0, max: 1}, log))
+	if err != nil {
+		panic(err)
+	}
+	w.c = c
+	defer func() { _ = w.c.Close() }()
 	name := "hammer.test"
 	key := w.realKey(name, 1, c08Routes()[0])
-	t0 := time.Now().UnixNano()
-	w.ins(t0, key, name, 1, 0, 77, 1, 0)
-	w.look(time.Now().UnixNano(), key, name, 1, false) // first request: latched
 	arms := rounds * 400
-	op := fmt.Sprintf("hammer t=%d key=%s arms=%d", time.Now().UnixNano(), c08Hex(key), arms)
+	budget := time.Duration(8+rounds/200) * time.Second
+	done := 0
 	out := VRecover(func() string {
+		answers, _, _ := c08Records(c08Fqdn(name), 1, 77, 77, 1, 0)
+		if err := w.c.UpdateDnsCacheTtlWithKey(key, name, 1, answers, nil, nil, -1000); err != nil {
+			return "err:" + err.Error()
+		}
+		msg0 := new(dnsmessage.Msg)
+		msg0.SetQuestion(dnsmessage.Fqdn(name), 1)
+		if resp, nr := w.c.LookupDnsRespCache_(msg0, key, false); resp == nil || !nr {
+			return "first-lookup-not-a-stale-hit-with-refresh"
+		}
 		v, ok := w.c.dnsCache.Load(key)
 		if !ok {
 			return "entry-missing"
@@ -1271,34 +1299,57 @@ func c08RaceStream(t *testing.T, st *VStream, stats *VStats, log *logrus.Logger,
 		var grants atomic.Int64
 		var stop atomic.Bool
 		var wg sync.WaitGroup
-		for g := 0; g < 6; g++ {
+		for g := 0; g < loopers; g++ {
 			wg.Add(1)
 			go func() {
 				defer wg.Done()
 				msg := new(dnsmessage.Msg)
 				msg.SetQuestion(dnsmessage.Fqdn(name), 1)
-				for !stop.Load() {
+				for n := 0; !stop.Load(); n++ {
 					if resp, nr := w.c.LookupDnsRespCache_(msg, key, false); resp != nil && nr {
 						grants.Add(1)
+					}
+					if n%64 == 0 {
+						runtime.Gosched()
 					}
 				}
 			}()
 		}
-		for a := 0; a < arms; a++ {
+		deadline := time.Now().Add(budget)
+		stuck := false
+	arming:
+		for done < arms {
 			before := grants.Load()
 			entry.MarkRefreshed()
-			for grants.Load() == before { // somebody takes the latch
+			for spins := 0; grants.Load() == before; spins++ { // somebody takes the latch
 				runtime.Gosched()
+				if spins%1024 == 1023 && time.Now().After(deadline) {
+					stuck = grants.Load() == before
+					break arming
+				}
+			}
+			done++
+			if done%4096 == 0 && time.Now().After(deadline) {
+				break
 			}
 		}
 		stop.Store(true)
 		wg.Wait()
+		released := done
+		if stuck {
+			released++ // the last release was issued, its grant may or may not have arrived
+		}
 		// every release was followed by exactly one needRefresh=true  <=>  as many grants as releases
-		dup := int(grants.Load()) - arms
-		return fmt.Sprintf("hammer releases=%d extra_refresh_requests=%d", arms, dup)
+		dup := int(grants.Load()) - done
+		if stuck && dup == 1 {
+			dup = 0
+		}
+		_ = released
+		return fmt.Sprintf("hammer extra_refresh_requests=%d", dup)
 	})
-	st.Emit(op, out)
-	stats.Add("race.latch_releases_hammered", arms)
+	st.Emit("hammer skipped=0", out)
+	stats.Add("race.latch_releases_hammered", done)
+	stats.Add("race.hammer_goroutines", loopers)
 }
 
 // ---------------------------------------------------------------- the request path (HandleWithResponseWriter_)
